@@ -86,9 +86,16 @@ pub(crate) trait MessageType: Sized {
             }
         }
 
+        // an HTTP/1.0 client does not understand chunked transfer coding (RFC 7230 §3.3.1); it gets
+        // the response body delimited by the end of the connection instead
+        let close_delimited = self.status().is_some() && version < Version::HTTP_11;
+
         match length {
             BodySize::Stream => {
-                if chunked {
+                if chunked && close_delimited {
+                    skip_len = true;
+                    dst.put_slice(b"\r\n");
+                } else if chunked {
                     skip_len = true;
                     if camel_case {
                         dst.put_slice(b"\r\nTransfer-Encoding: chunked\r\n")
@@ -342,7 +349,7 @@ impl<T: MessageType> MessageEncoder<T> {
         length: BodySize,
         conn_type: ConnectionType,
         config: &ServiceConfig,
-    ) -> io::Result<()> {
+    ) -> io::Result<ConnectionType> {
         // Responses to HEAD requests and 1xx and 204 responses never have a body; whatever body
         // the handler supplied must not reach the wire. (After 101 the connection is a tunnel,
         // so its "body" is passed through.)
@@ -358,7 +365,11 @@ impl<T: MessageType> MessageEncoder<T> {
                 BodySize::Sized(0) => TransferEncoding::empty(),
                 BodySize::Sized(len) => TransferEncoding::length(len),
                 BodySize::Stream => {
-                    if message.chunked() && !stream {
+                    // no chunked transfer coding in a response to an HTTP/1.0 request
+                    let http10_response =
+                        message.status().is_some() && version < Version::HTTP_11;
+
+                    if message.chunked() && !stream && !http10_response {
                         TransferEncoding::chunked()
                     } else {
                         TransferEncoding::eof()
@@ -370,8 +381,21 @@ impl<T: MessageType> MessageEncoder<T> {
             self.te = TransferEncoding::empty();
         }
 
+        // A response body that is neither length- nor chunk-delimited ends where the connection
+        // ends, so the connection can not be kept alive after it.
+        let conn_type = if conn_type == ConnectionType::KeepAlive
+            && message.status().is_some()
+            && self.te.is_eof()
+        {
+            ConnectionType::Close
+        } else {
+            conn_type
+        };
+
         message.encode_status(dst)?;
-        message.encode_headers(dst, version, length, conn_type, config)
+        message.encode_headers(dst, version, length, conn_type, config)?;
+
+        Ok(conn_type)
     }
 }
 
@@ -410,6 +434,12 @@ impl TransferEncoding {
         TransferEncoding {
             kind: TransferEncodingKind::Eof,
         }
+    }
+
+    /// Returns true if the body is delimited by the end of the connection.
+    #[inline]
+    pub fn is_eof(&self) -> bool {
+        self.kind == TransferEncodingKind::Eof
     }
 
     #[inline]
